@@ -112,9 +112,12 @@ def o2(W, ob):
              'outgoing_local_inputs is a %s' % fld['ty'][:60], None)
 
 
+from . import removals
+
 OBLIGATIONS = [
     ('C17.O1', 'every hash iteration is classified', 'each of the >= 30 iteration sites over a HashMap/HashSet is a commutative reduction, a pure retain, a loop without '
      'shared writes, collected-and-sorted, or matches a reviewed entry with exactly the computed effect signature; callers of map-ordered results are reviewed.', o1),
     ('C17.O2', 'canonical orders', 'InputBytes::from_inputs iterates 0..num_players with lookups; UdpProtocol::new sorts the handles it stores; outgoing_local_inputs is a BTreeMap.', o2),
     ('C17.O3', 'order-independent merge of pending disconnects (= C07.O3)', 'see C07.O3', c07.o3),
+    ('C17.R', 'who may remove', 'every call that takes elements out of a collection this property\'s rules rely on (keyed removal from a map, or bulk / positional removal) is one of the reviewed sites in tables/removals.json; a lookup turned into a removal, a second prune, a clear on another path is reported; see rules/removals.py', removals.rule_for('C17')),
 ]
